@@ -99,6 +99,20 @@ def renameDuplicateAttrs (attrs : List Attr) : List Attr :=
   let keys := attrs.map Attr.key
   keys.eraseDups.foldl (fun cur k => processGroup cur (groupIdxs keys k)) attrs
 
+/-- `CreateWrapperFields.process` on the attrs of one class. Each attr comes with what the handler
+finds for it: `none` (the attr is no wrapper candidate: `validate_attr` / `validate_source` say no), or
+`some src` = the only attr of the class the element refers to, which `wrap_field` swaps in
+(`attr.swap(source)`: name, tag and namespace are the source's). **If any attr was wrapped — whether
+its source class is an inner class or a root-level one —** `rename_duplicate_attributes` runs on the
+class afterwards. Option off: nothing happens. -/
+def wrapAttrs (cands : List (Attr × Option Attr)) : List Attr :=
+  cands.map (fun c => c.2.getD c.1)
+
+def anyWrapped (cands : List (Attr × Option Attr)) : Bool := cands.any (fun c => c.2.isSome)
+
+def createWrapperFields (enabled : Bool) (cands : List (Attr × Option Attr)) : List Attr :=
+  if enabled && anyWrapped cands then renameDuplicateAttrs (wrapAttrs cands) else cands.map (·.1)
+
 /-- `ValidateAttributesOverrides.validate_attrs`, the conflict branch for the child attr at position
 `ci` of the class: its counterpart is the first parent attr with the same slug; one of the two is
 renamed "by preference" and the new name is made unique among the attrs of the class *and* of all
